@@ -273,8 +273,8 @@ func c11CheckOps(c c11OpsCase) h.Result {
 	}
 	chk("ExpandedMultiscalarMulVartime", np().ExpandedMultiscalarMulVartime(scalars[:c.Static], static, scalars[c.Static:], points[c.Static:]), msm)
 	chk("Sum", np().Sum(points), plain)
-	// (Sum with the receiver among the values is not asserted: the receiver is
-	// documented to be *set* to the sum and is cleared first.)
+	// (Sum with the receiver among the values is asserted by C03 - see
+	// known_findings.txt, fixed in 227bd34.)
 	chk("Sum(nil)", np().Sum(nil), ref.Identity())
 	chk("Sum(empty)", np().Sum([]*RistrettoPoint{}), ref.Identity())
 	return r.Result()
